@@ -38,7 +38,7 @@ LEVEL_TEXT = (
 LEVEL_NOTE = "Trusted: simkit.readout.snapshot as 'everything observable' (monitor-side selection and caches are not part of the monitored system), httpx ASGI transport, the OpenAPI schema as the route table."
 MINIMIZE = None
 RULE = (
-    "one run = stack x history (6-14 invocations, queue length 3-9) x partial-purge / aged-by-25h / duplicate-queue-entry flags x all GET routes (34 at this commit) x 1-3 parameter "
+    "one run = stack x history (6-14 invocations, queue length 3-9) x partial-purge (+ activity after the purge) / aged-by-25h / duplicate-queue-entry / monitor-as-second-app-object (SQLite) flags x all GET routes (34 at this commit) x 1-3 parameter "
     "choices each; non-trivial = the queue was longer than the requested page limit or the store was partially purged; distinct = hash of history + requests."
 )
 ASSUMPTIONS = [
@@ -47,7 +47,7 @@ ASSUMPTIONS = [
 ]
 REAL = ["pynmon FastAPI application and all views", "pynmon.util family tree / timeline builders", "both backend families"]
 STUBBED = ["HTTP transport (in-process ASGI)", "clock", "uuid4"]
-PROBES = ["routes_requested", "queue_longer_than_limit", "partially_purged_store", "duplicate_queue_entry", "aged_final_invocations", "http_200", "http_4xx", "http_5xx"]
+PROBES = ["routes_requested", "queue_longer_than_limit", "partially_purged_store", "duplicate_queue_entry", "aged_final_invocations", "activity_after_purge", "monitor_in_its_own_process", "http_200", "http_4xx", "http_5xx"]
 
 _ROUTES: list[tuple[str, list[dict]]] | None = None
 
@@ -147,6 +147,20 @@ def run(seed: int, params: dict, replay: dict | None = None) -> dict:
             # the state backend lost its records, the queue still names them
             app.state_backend.purge()
             bump("probe.partially_purged_store")
+            if rng.random() < 0.6:
+                # the application keeps working after the purge: its process still remembers which runner contexts it
+                # stored (the rows are gone), so the new history entries name runners without a stored context
+                for i in range(rng.randint(1, 3)):
+                    sim.advance(0.01)
+                    inv_ids.append(str(t_tree({"v": 100 + i}).invocation_id))
+                for _ in range(rng.randint(0, 2)):
+                    try:
+                        for inv in list(app.orchestrator.get_invocations_to_run(1, ctx)):
+                            inv.run(ctx)
+                    except Exception:  # noqa: BLE001  (a queued id whose record was purged, or a scripted failure)
+                        pass
+                app.state_backend.wait_for_all_async_operations() if hasattr(app.state_backend, "wait_for_all_async_operations") else None
+                bump("probe.activity_after_purge")
         aged = rng.random() < 0.35
         if aged:
             # a day later: final invocations are older than auto_final_invocation_purge_hours (a view must still not purge them)
@@ -155,8 +169,23 @@ def run(seed: int, params: dict, replay: dict | None = None) -> dict:
         known = sorted({e for e in inv_ids} | {str(x) for x in app.orchestrator.get_invocation_ids_paginated(limit=200)})
         qlen = app.broker.count_invocations()
         # ---- requests --------------------------------------------------
-        pa.all_pynenc_instances = {app.app_id: app}
-        pa.pynenc_instance = app
+        served = app
+        if stack == "sqlite" and rng.random() < 0.5:
+            # the monitor as its own process: a second application object on the same database (empty caches)
+            served = apps_mod.make_app(stack, app_id="monitored", db_path=db, min_size_to_cache=64)
+            apps_mod.instantiate_all(served)
+            apps_mod.register(served, simtasks.tree, triggers=on_event("evt"))
+            apps_mod.register(served, simtasks.prog, max_retries=1)
+            served.register_deferred_triggers()
+            bump("probe.monitor_in_its_own_process")
+        pa.all_pynenc_instances = {served.app_id: served}
+        pa.pynenc_instance = served
+
+        def snap() -> dict:
+            s_ = readout.snapshot(app, known, keys, runner_ids=["r1"])
+            if stack == "sqlite":
+                s_["tables"] = readout.exact_table_counts(db, readout.own_tables(app))  # type: ignore[arg-type]
+            return s_
         reqs: list[str] = []
 
         def values_for(name: str) -> list[str]:
@@ -205,7 +234,7 @@ def run(seed: int, params: dict, replay: dict | None = None) -> dict:
         async def serve() -> None:
             transport = httpx.ASGITransport(app=pa.app, raise_app_exceptions=False)
             async with httpx.AsyncClient(transport=transport, base_url="http://testserver", follow_redirects=False) as client:
-                before = readout.snapshot(app, known, keys, runner_ids=["r1"])
+                before = snap()
                 for url in reqs:
                     bump("probe.routes_requested")
                     try:
@@ -215,7 +244,7 @@ def run(seed: int, params: dict, replay: dict | None = None) -> dict:
                         code = -1
                         viol.append({"signature": f"C20/{stack}/transport-error/{type(e).__name__}", "message": f"GET {url}: {type(e).__name__}: {e}"})
                     bump("probe.http_200" if code == 200 else ("probe.http_5xx" if code >= 500 else "probe.http_4xx"))
-                    after = readout.snapshot(app, known, keys, runner_ids=["r1"])
+                    after = snap()
                     d = readout.diff(before, after)
                     if d:
                         route = url.split("?")[0]
@@ -227,8 +256,8 @@ def run(seed: int, params: dict, replay: dict | None = None) -> dict:
                             what = "queue-lost" if sorted(qa) != sorted(qb) else "queue-reordered"
                         viol.append({"signature": f"C20/{stack}/{what}/GET {route}/http={code}/partial={int(partial)}/aged={int(aged)}", "message": f"GET {url} (HTTP {code}) changed the monitored system: {d[:4]}"})
                         before = after  # keep comparing later requests against the new state
-                    if pa.pynenc_instance is not app:
-                        pa.pynenc_instance = app
+                    if pa.pynenc_instance is not served:
+                        pa.pynenc_instance = served
 
         asyncio.run(serve())
         tr = repr(reqs).encode()
